@@ -4,7 +4,7 @@
    SUBTOTAL_FUNCS table itself. *)
 From Coq Require Import ZArith List String Extraction ExtrOcamlBasic.
 From PV Require Import Lib.Py Extract.Sx Model.Aggregates.
-From PV Require Gen.excelutil Gen.excellib Gen.stats Gen.excelformula.
+From PV Require Gen.excelutil Gen.aggregates Gen.stats Gen.excelformula.
 Import ListNotations.
 Open Scope string_scope.
 
@@ -15,8 +15,8 @@ Definition table_entry (args : list sx) : sx :=
   end.
 
 Definition table : list entry :=
-  [ E "_numerics" (call2 excellib.f__numerics)
-  ; E "sum_" (call1 excellib.f_sum_)
+  [ E "_numerics" (call2 aggregates.f__numerics)
+  ; E "sum_" (call1 aggregates.f_sum_)
   ; E "average" (call1 stats.f_average)
   ; E "count" (call1 stats.f_count)
   ; E "max_" (call1 stats.f_max_)
